@@ -51,6 +51,9 @@ FIXED = [
  ("C10", "fix: false of a named boolean type is false", "a value of type 'type Flag bool' holding false was compared with the untyped constant false and counted as true in if/unless/case, under and/or and in the default filter (also C09)"),
  ("C08", "fix: integers of every width work as array index, range bound and loop modifier", "a[i] was nil, (1..n) and limit:/offset:/cols: failed when the number was an int64 (e.g. the result of divided_by), a uint, an int8 or a named integer type: only the Go type int was accepted (also C11, C18)"),
  ("C09", "fix: 'map contains key' with a key or map key type that is a named string type", "{% if m contains t %} was false when t had a named string type and m was keyed by string (or the reverse)"),
+ ("C05", "fix: whitespace control trims literal text only", "{{ a -}}{{ b }} dropped the leading whitespace of the VALUE of b, {{ b }}{{- a }} its trailing whitespace, {{ a -}}{% raw %}  r{% endraw %} the start of the raw body: trim flags applied to whatever was written next / last (also C13)"),
+ ("C13", "fix: whitespace control reaches only the text next to the marker", "{{ a -}}{% assign x = 1 %} text stripped ' text' across the assign tag, and 'text {% assign x = 1 %}{{- a }}' stripped 'text ': markers reached literal text that is not adjacent to them"),
+ ("C13", "fix: the end of a block body, clause or loop iteration also ends pending whitespace control", "in {% for x in a %} x {% assign y = 1 -%}{% endfor %} the pending trim leaked into the next iteration; {% endcase -%}{% endcase %} text reached past the outer end tag"),
 ]
 KNOWN = [
  # (property, key, what)
